@@ -16,14 +16,14 @@
 (* The universe is written as vectors (POSTCONDITION Emit) and replayed into solve_cnf.   *)
 EXTENDS C15_SatCore, SequencesExt, FiniteSetsExt, Json, IOUtils
 
-CONSTANTS Parts     \* set of <<shape, number of variables, max literals per clause, max clauses>>, shape "seq" | "set" | "setc"
+CONSTANTS Parts     \* set of <<shape, number of variables, max literals per clause, max clauses>>, shape "seq" | "set" | "setc" | "seqc"
 
 \* the universes used by the check (cfg: Parts <- ...)
 PartsQuick == { <<"seq", 2, 2, 3>>,      \* 2 vars, clauses = literal sequences of length <= 2, <= 3 clauses  (9 724)
                 <<"setc", 3, 3, 3>>,     \* 3 vars, all sets of <= 3 clauses of <= 3 distinct literals, one representative
                                          \* per renaming of the variables (variables first occur in the order 1, 2, 3)  (2 439)
                 <<"set", 2, 2, 6>> }     \* 2 vars, all sets of <= 6 clauses of <= 2 distinct literals        (1 486)
-PartsSeq2x == { <<"seq", 2, 2, 4>> }     \* (204 205)
+PartsSeq2x == { <<"seqc", 2, 2, 4>> }    \* 2 vars, literal sequences of length <= 2, <= 4 clauses, up to renaming (of 204 205)
 PartsSet3x == { <<"setc", 3, 3, 4>> }    \* 3 vars, all sets of <= 4 clauses of <= 3 distinct literals up to renaming (of 124 314)
 PartsSeq3 == { <<"seq", 3, 2, 3>>, <<"set", 2, 2, 6>> }     \* (81 400 + 1 486)
 
@@ -42,6 +42,7 @@ Canonical(cnf) == LET s == VarSeq(cnf, 1) IN \A i \in 1..Len(s) : s[i] > 1 => \E
 PartCNFs(p) == CASE p[1] = "seq" -> SeqCNFs(p[2], p[3], p[4])
                  [] p[1] = "set" -> SetCNFs(p[2], p[3], p[4])
                  [] p[1] = "setc" -> { c \in SetCNFs(p[2], p[3], p[4]) : Canonical(c) }
+                 [] p[1] = "seqc" -> { c \in SeqCNFs(p[2], p[3], p[4]) : Canonical(c) }
 CNFs == UNION { PartCNFs(p) : p \in Parts }
 
 VARIABLES cnf, derived, prf, saturated, mark
